@@ -395,7 +395,7 @@ def detect_stream(ctx):
             grid = [int(rng.integers(1, 4)), int(rng.integers(1, 3))]
         p = int(rng.integers(1, 3))
         nspans = int(rng.integers(1, 3))
-        patches, origin = [], []
+        patches, origin, revs = [], [], []
         for cell in itertools.product(*[range(g) for g in grid]):
             geo = (geometry.unit_square() if dim == 2 else geometry.unit_cube()).translate(tuple(float(c) for c in cell))
             coeffs = geo.coeffs
@@ -405,43 +405,52 @@ def detect_stream(ctx):
                     coeffs = np.flip(coeffs, axis=a)
             geo = bspline.BSplineFunc(geo.kvs, np.ascontiguousarray(coeffs))
             kvs = tuple(bspline.make_knots(p, 0.0, 1.0, nspans) for _ in range(dim))
-            patches.append((kvs, geo)); origin.append(cell)
+            patches.append((kvs, geo)); origin.append(cell); revs.append(rev)
         perm = [int(v) for v in rng.permutation(len(patches))]
         patches = [patches[k] for k in perm]
         key = ('detect', dim, tuple(grid), p, nspans, tuple(perm))
         ctx.case(key, nontrivial=len(patches) > 1)
         ctx.count('detect dim=%d' % dim)
+        bad = None
+        key_bad = 'mp-detect'
+        replay = {'dim': dim, 'grid': grid, 'degree': p, 'nspans': nspans, 'perm': perm, 'reversed_axes_per_cell': revs,
+                  'how': 'grid of translated unit squares/cubes with randomly reversed axes; detect_interfaces(patches); Multipatch(patches, automatch=True)'}
         try:
-            M = assemble.Multipatch(patches, automatch=True)
-            nd = int(M.numdofs)
-            loc = {}
-            bad = None
+            import networkx as nx
+            connected, interfaces = assemble.detect_interfaces(patches)
+            shapes = [[int(kv.numdofs) for kv in kvs] for (kvs, _) in patches]
+            calls = [('jb', int(p1), int(b1[0]), int(b1[1]), int(p2), int(b2[0]), int(b2[1]), tuple(bool(f) for f in flip))
+                     for (p1, b1, p2, b2, flip) in interfaces]
+            replay['detected'] = [list(c) for c in calls]
+            # (a) detection: the closure of the detected face pairings == physical coincidence of Greville points
+            G = nx.Graph()
+            phys = {}
             for q, (kvs, geo) in enumerate(patches):
-                grev = [kv.greville() for kv in kvs]
-                pts = geo.grid_eval(grev).reshape(-1, dim)
-                idx = M.patch_to_global_idx(q)
-                for i, g in enumerate(idx):
-                    key_pt = tuple(np.round(pts[i], 9) + 0.0)
-                    loc.setdefault(key_pt, set()).add(int(g))
-            classes = {}
-            for pt, gs in loc.items():
-                if len(gs) != 1:
-                    bad = 'dofs at the same physical Greville point %s have different global indices %s' % (pt, sorted(gs))
-                    break
-                g = next(iter(gs))
-                if g in classes:
-                    bad = 'dofs at different physical points share global index %d' % g
-                    break
-                classes[g] = pt
-            if bad is None and (sorted(classes) != list(range(nd))):
-                bad = 'numbering not gap-free: numdofs=%d, %d distinct points' % (nd, len(classes))
+                pts = geo.grid_eval([kv.greville() for kv in kvs]).reshape(-1, dim)
+                for i in range(len(pts)):
+                    G.add_node((q, i))
+                    phys.setdefault(tuple(np.round(pts[i], 9) + 0.0), set()).add((q, i))
+            for c in calls:
+                pairs = declared_pairs(shapes, c)
+                if pairs is not None:
+                    G.add_edges_from(pairs)
+            if not connected and len(patches) > 1:
+                bad = 'detect_interfaces reports a disconnected patch graph for a connected grid'
+            elif {frozenset(c) for c in nx.connected_components(G)} != {frozenset(c) for c in phys.values()}:
+                bad = 'closure of the detected interfaces differs from the physical coincidence of Greville points'
+            else:
+                # (b) the automatch object glues exactly that closure (same model-free oracle as the abstract histories)
+                M = assemble.Multipatch(patches, automatch=True)
+                bad = oracle(shapes, calls, M)
+                if bad is not None:
+                    key_bad = classify(shapes, calls, bad)
+                    if key_bad == 'mp-oracle':
+                        key_bad = 'mp-detect'
         except Exception as ex:
             bad = 'automatch raised %s: %s' % (type(ex).__name__, str(ex)[:160])
         if bad is not None:
-            single = len(patches) == 1 and 'IndexError' in bad
-            ctx.violation(KEY_UNSHARED if single else 'mp-detect', bad,
-                          {'dim': dim, 'grid': grid, 'degree': p, 'nspans': nspans, 'perm': perm, 'oracle': bad,
-                           'how': 'grid of translated unit squares/cubes with randomly reversed axes; Multipatch(patches, automatch=True)'}, True)
+            replay['oracle'] = bad
+            ctx.violation(key_bad, 'automatch: ' + bad, replay, True)
 
 
 # ----------------------------------------------------------------------------- run
